@@ -12,6 +12,10 @@ fork the wrapper runs in the child and injects the fault there:
     point  before / mid / after the real worker body ('mid' = at the n-th call of a function the
            worker calls, see MID_HOOKS; the fault fires in the child only)
 
+For the mapping there is one schedule on top of the faults ('siblings-publish-at-cleanup'): with
+2 cells per chunk the neighbours of the failing worker hold their finished chunk back until the
+parent starts to remove the buffer directory and write it then (only worker timing is chosen).
+
 Every case runs inside a process of our own (own session, time-out): a hang is a failure of the
 clause "the call raises".  A marker file written by the child just before the fault proves that
 the fault was delivered (otherwise the case is a harness error, not a pass).
@@ -427,6 +431,35 @@ class _MidHook(object):
         return out
 
 
+class _PublishWhenCleanupStarts(object):
+    """installed IN A SIBLING of the failing worker: replaces election.save_results.  The sibling
+    holds its finished chunk back until a chunk file that was present in the buffer directory has
+    been removed (= the parent has started to clean up after the failure), then publishes at once.
+    Only the timing of a worker is chosen; parent code is untouched."""
+
+    def __init__(self, real, timeout=4.0):
+        self.real, self.timeout = real, timeout
+
+    def __call__(self, result, path):
+        d = os.path.dirname(str(path))
+        t0 = time.time()
+        seen = None
+        try:
+            while time.time() - t0 < self.timeout:
+                if seen is None:
+                    others = [n for n in os.listdir(d) if n.endswith('_assignment.json')]
+                    if others:
+                        seen = os.path.join(d, others[0])
+                    else:
+                        time.sleep(0.0005)
+                elif not os.path.exists(seen):
+                    os.close(os.open(str(path), os.O_CREAT | os.O_WRONLY))
+                    break
+        except OSError:
+            pass
+        return self.real(result, path)
+
+
 class _WrappedTarget(object):
     def __init__(self, real, k, plan):
         self.real, self.k, self.plan = real, k, plan
@@ -439,6 +472,10 @@ class _WrappedTarget(object):
             time.sleep(d)
         fault = plan.get('fault')
         mine = fault is not None and fault['k'] == self.k
+        sib = plan.get('siblings_publish_at_cleanup')
+        if sib and not mine and self.k in sib[2]:
+            mod = importlib.import_module(sib[0])
+            setattr(mod, sib[1], _PublishWhenCleanupStarts(getattr(mod, sib[1])))
         if mine and fault['point'] == 'before':
             _trigger(fault['mode'], plan.get('marker'))
         if mine and fault['point'] == 'mid':
@@ -765,27 +802,41 @@ def outputs_diff(stage, out_a, out_b, float_rtol=None, dtype_notes=None):
 # one C14 case (runs inside the isolated process)
 # ------------------------------------------------------------------------------------------------
 
-def stage_case(world, stage, base, fault=None, mid_index=0, nproc=None):
+def stage_case(world, stage, base, fault=None, mid_index=0, nproc=None, schedule=None):
     """run `stage` with (or without) one injected fault; returns the observations"""
     st = STAGES[stage]
     nproc = nproc or st['nproc']
     out, scratch = fresh_dirs(base, stage.replace('/', '-'))
     marker = os.path.join(os.path.dirname(out), 'fault_fired')
     obs = dict(stage=stage, fault=fault, raised=None, outputs={}, out_dir=out, nproc=nproc)
+    run_kw = {}
     if fault is None:
         plan = dict(sites=list(st['sites']), fault=None)
     else:
         plan = fault_plan(stage, fault['k'], fault['mode'], fault['point'], mid_index, marker)
         obs['mid'] = plan['fault'].get('mid')
+        if schedule == 'siblings-publish-at-cleanup':
+            # 2 cells per chunk -> 10 chunks; the workers dispatched next to the failing one hold
+            # their chunk back until the parent starts removing the chunks written so far
+            plan['siblings_publish_at_cleanup'] = (M + 'type_assignment.election', 'save_results',
+                                                   (fault['k'] - 1, fault['k'] + 1))
+            run_kw = dict(chunk_size=2)
     outputs = None
     with injected(plan):
         try:
             with fx.quiet():
-                outputs = st['run'](world, out, scratch, nproc)
+                outputs = st['run'](world, out, scratch, nproc, **run_kw)
             obs['raised'] = None
         except Exception as e:   # noqa   what the property asks for
             obs['raised'] = f'{type(e).__name__}: {str(e)[:200]}'
     obs['dispatched'] = len(plan.get('dispatched', []))
+    if fault is not None and not os.path.exists(marker):
+        # the call came back before the chosen worker reached its crash point (it did not wait
+        # for that worker): give the worker a moment, the verdict on the call stands
+        t_wait = time.time()
+        while time.time() - t_wait < 1.5 and not os.path.exists(marker):
+            time.sleep(0.05)
+        obs['fired_late'] = os.path.exists(marker)
     obs['fired'] = os.path.exists(marker)
     obs['out_listing'] = tree_listing(out)
     obs['scratch_listing'] = tree_listing(scratch)
@@ -849,14 +900,19 @@ CL_HDF5 = "mapping: the HDF5 output holds only metadata"
 CL_OUTPUT = "no file at the requested output location that the next stage accepts as complete"
 
 
-def judge(row, stage, nproc, fault, mid_index, status, obs):
+def judge(row, stage, nproc, fault, mid_index, status, obs, schedule=None):
     """turn the observations of one faulty case into failures of `row`"""
     st = STAGES[stage]
     replay = dict(stage=stage, entry=st['function'], worker_site=st['sites'], fault=fault,
                   mid=(st['mid'][mid_index % len(st['mid'])]
                        if fault and fault['point'] == 'mid' else None),
-                  n_processors=nproc, world='bounded.c14.make_world(root, seed)',
-                  replay='bounded.c14.stage_case(world, stage, base, fault, mid_index, nproc)')
+                  n_processors=nproc, world='bounded.c14.make_world(root, seed[, encoding=, ref_encoding=])',
+                  replay='bounded.c14.stage_case(world, stage, base, fault, mid_index, nproc, schedule)')
+    if schedule:
+        replay['schedule'] = (schedule + ': the other workers hold their finished chunk back until the '
+                              'parent removes a chunk file from the buffer directory, then write theirs; '
+                              'chunk_size=2 (10 chunks) '
+                              '(bounded.c14._PublishWhenCleanupStarts); repeat the case: the outcome is a race')
     if status == 'hang':
         fx.add_failure(row, CL_RAISES, 'hang', replay, f'no return within {obs} s')
         return
@@ -868,7 +924,7 @@ def judge(row, stage, nproc, fault, mid_index, status, obs):
                           f'{obs["dispatched"]}, raised={obs["raised"]})')
         return
     row['accepted'] += 1
-    fx.note_case(row, (stage, nproc, fault['k'], fault['mode'], fault['point'], mid_index), replay)
+    fx.note_case(row, (stage, nproc, fault['k'], fault['mode'], fault['point'], mid_index, schedule), replay)
     if obs['raised'] is None:
         fx.add_failure(row, CL_RAISES, 'no-exception', replay, 'the call returned normally')
     if stage == 'mapping':
@@ -896,8 +952,9 @@ def judge(row, stage, nproc, fault, mid_index, status, obs):
                                f'{name}: {why}; call raised: {obs["raised"]}')
 
 
-def _case_entry(world, stage, base, fault, mid_index, nproc):
-    return stage_case(world, stage, base, fault=fault, mid_index=mid_index, nproc=nproc)
+def _case_entry(world, stage, base, fault, mid_index, nproc, schedule=None):
+    return stage_case(world, stage, base, fault=fault, mid_index=mid_index, nproc=nproc,
+                      schedule=schedule)
 
 
 def enumerate_cases(tier, seed, n_workers):
@@ -915,18 +972,51 @@ def enumerate_cases(tier, seed, n_workers):
                 for k, mode, point in itertools.product(range(nw), MODES, POINTS):
                     mids = range(len(st['mid'])) if point == 'mid' else (0,)
                     for mi in mids:
-                        cases.append((stage, np_, dict(k=int(k), mode=mode, point=point), mi))
+                        cases.append((stage, np_, dict(k=int(k), mode=mode, point=point), mi, None))
+            if stage == 'mapping' and (stage, 3) in n_workers:
+                for rep in range(12):
+                    cases.append((stage, 3, dict(k=5 + rep % 4, mode=MODES[rep % 3], point='after'), 0,
+                                  'siblings-publish-at-cleanup'))
         else:
             # every stage x every (mode, crash point); worker index, variant, mid hook sampled
             for mode, point in itertools.product(MODES, POINTS):
                 np_ = variants[int(rng.integers(0, len(variants)))]
                 k = int(rng.integers(0, n_workers[(stage, np_)]))
                 mi = int(rng.integers(0, len(st['mid']))) if point == 'mid' else 0
-                cases.append((stage, np_, dict(k=k, mode=mode, point=point), mi))
+                cases.append((stage, np_, dict(k=k, mode=mode, point=point), mi, None))
+            if stage == 'mapping' and (stage, 3) in n_workers:
+                for rep in range(4):
+                    cases.append((stage, 3, dict(k=6 + rep % 2, mode=MODES[rep % 3], point='after'), 0,
+                                  'siblings-publish-at-cleanup'))
     return cases
 
 
+def merge_rows(first, second, note):
+    out = []
+    for a, b in zip(first, second):
+        r = dict(a)
+        for k in ('cases', 'accepted', 'distinct'):
+            r[k] = a.get(k, 0) + b.get(k, 0)
+        r['failures'] = list(a.get('failures', [])) + list(b.get('failures', []))
+        r['error'] = a.get('error') or b.get('error')
+        if a.get('exhaustive') is not None:
+            r['exhaustive'] = bool(a.get('exhaustive')) and bool(b.get('exhaustive'))
+        r['bound'] = f"{a['bound']} || {note}: {b['bound'].split('; workers per n_processors', 1)[-1]}"
+        out.append(r)
+    return out
+
+
 def run(tier='quick', seed=0, jobs=None):
+    """quick: one world; thorough: the full enumeration on two worlds (seed; seed+1 with a CSC query
+    and a dense reference)"""
+    if tier != 'thorough':
+        return _run_one(tier, seed, jobs, 50, {})
+    first = _run_one(tier, seed, jobs, 220, {})
+    second = _run_one(tier, seed + 1, jobs, 220, dict(encoding='csc', ref_encoding='dense'))
+    return merge_rows(first, second, 'second world (CSC query, dense reference)')
+
+
+def _run_one(tier, seed, jobs, budget, world_kw):
     t_start = time.time()
     jobs = max(1, min(int(jobs or 2), 3))
     rows = {}
@@ -948,7 +1038,7 @@ def run(tier='quick', seed=0, jobs=None):
     root = tempfile.mkdtemp(prefix='verif_', dir='/tmp')
     try:
         try:
-            world = make_world(root, seed)
+            world = make_world(root, seed, **world_kw)
         except BaseException as e:   # noqa
             for r in rows.values():
                 fx.add_error(r, f'world could not be built: {type(e).__name__}: {e}\n'
@@ -989,22 +1079,21 @@ def run(tier='quick', seed=0, jobs=None):
             rows[stage]['bound'] += '; workers per n_processors: ' + json.dumps(
                 {str(np_): n for (s, np_), n in n_workers.items() if s == stage})
         cases = enumerate_cases(tier, seed, n_workers)
-        budget = 50 if tier == 'quick' else 440
-        kws = [dict(world=world, stage=s, base=base, fault=f, mid_index=mi, nproc=np_)
-               for s, np_, f, mi in cases]
+        kws = [dict(world=world, stage=s, base=base, fault=f, mid_index=mi, nproc=np_, schedule=sch)
+               for s, np_, f, mi, sch in cases]
         # run in slices so that the wall budget can stop the enumeration cleanly
         done = 0
         step = max(jobs * 4, 8)
         while done < len(kws):
             if time.time() - t_start > budget:
-                for s, np_, f, mi in cases[done:]:
+                for s, np_, f, mi, sch in cases[done:]:
                     rows[s]['_skipped'] = rows[s].get('_skipped', 0) + 1
                 break
             part = run_isolated_many(_case_entry, kws[done:done + step], jobs=jobs, timeout=60,
                                      workdir=root)
-            for (s, np_, f, mi), (status, obs) in zip(cases[done:done + step], part):
+            for (s, np_, f, mi, sch), (status, obs) in zip(cases[done:done + step], part):
                 rows[s]['cases'] += 1
-                judge(rows[s], s, np_, f, mi, status, obs)
+                judge(rows[s], s, np_, f, mi, status, obs, sch)
             done += step
             shutil.rmtree(base, ignore_errors=True)
             os.makedirs(base, exist_ok=True)
